@@ -36,6 +36,69 @@ CLAIMS["C13"] = dict(
     technique="Coq proof of the stacking algorithm (lists, NoDup, induction) + in-Coq correspondence + block-vs-sliced-cube differential run",
     design_ref="DESIGN.md 4/C13")
 
+CLAIMS["C01"] = dict(
+    category="proof",
+    text=("Theorems of coq/theories/Properties/C01.v over the executable model of iindex.from_array / to_array (IIndex/FromArray.v, ToArray.v; "
+          "the strategy switch is a FREE parameter, so everything is proved for BOTH construction strategies on every input): "
+          "C01_from_array_total / C01_from_array_err_only (under the documented contract `pre` the only refusal is 'no values and no common'), "
+          "C01_from_array_dense (shape and dense content = mapped input), C01_from_array_wf, C01_to_array_dense / _default / _mapping / "
+          "_mapping_default / _empty_mapping (explicit dtype, default dtype = fit_dtype(max,min) which contains every value (uses C19), value mapping), "
+          "C01_roundtrip and C01_roundtrip_int64 (composition: for every rectangular 1-D/2-D array with N >= 0 rows <= 2^32, every option "
+          "combination - common given/absent-from-data/omitted, counts supplied or not, mapping omitted/injective/many-to-one - the round trip "
+          "equals the (mapped) input element for element and in shape, in all three ways back). Tie W2 on every run: ~1 400 generated cases "
+          "(value pools on every dtype boundary, negatives, N in 0..12 and 80..400 so that the row-scan path iindexes.py:401-418 is really taken - "
+          "measured with sys.settrace - option cross product, rejected stream) run through the REAL code under RLIMIT_AS and through the model "
+          "inside Coq (vm_compute): shape, dense content, wf_b of the real index, common, cells and dtype NAME of to_array, exception class."),
+    note=("Trusted: Coq kernel + vm_compute; harness abstraction of real indexes/arrays to Gallina literals; NumPy where/bincount/unique/fancy "
+          "indexing are modelled, not verified; the float-valued strategy switch is not modelled (both branches proved instead). "
+          "All theorems closed under the global context. Values are Python ints in int64/uint64 range; non-integer categories are outside the property."),
+    technique="Coq proof over a hand-written executable model (both strategies) + in-Coq correspondence with the real from_array/to_array",
+    design_ref="DESIGN.md 4/C01")
+
+CLAIMS["C08"] = dict(
+    category="proof",
+    text=("Theorems C08_intersect / C08_union / C08_difference / C08_wrappers / C08_wrappers_none / C08_union_many (Properties/C08.v) over "
+          "SetOps/Kernels.v, an index-level transcription of set_operations.pyx (pointers, cached left/right elements, early exits, tail copies, "
+          "output buffer with explicit capacity, the k-way loop): for ALL strictly increasing lists of values in [0, 2^32) - empty lists, 0 and "
+          "2^32-1 included - whose lengths fit a C int, each kernel returns exactly inter_spec / union_spec / diff_spec / union_many_spec, which "
+          "are strictly increasing, within uint32 and have exactly the mathematical members; the wrappers return None exactly in the documented "
+          "cases. Tie W2, exhaustive small scope on every run: every ordered pair of subsets of {0..5} ({0..7} thorough) and of the boundary "
+          "universe {0,1,2^31,2^32-2,2^32-1}, kernels and wrappers incl. None operands, every list of <=3 subsets for the k-way union, random "
+          "long arrays in all overlap patterns: the REAL kernels (working-tree .pyx compiled by the harness) against the model inside Coq "
+          "(~77 000 calls quick)."),
+    note=("Trusted: Coq kernel + vm_compute; Cython typed-memoryview semantics and C int/uint32 arithmetic are modelled (index-level), not verified; "
+          "hypothesis length < 2^31 is the documented C-int limitation and cannot be reached by the tie. Closed under the global context."),
+    technique="Coq proof (simulation of the pointer loops by structural merges, induction) + exhaustive small-scope in-Coq correspondence",
+    design_ref="DESIGN.md 4/C08")
+
+CLAIMS["C09"] = dict(
+    category="proof",
+    text=("Theorems C09_intersect / C09_union / C09_difference / C09_union_many / C09_never_oob / C09_wrappers (Properties/C09.v): in the "
+          "index-level model every element read, every output-buffer write (against the allocated capacity) and every pointer-array update "
+          "returns OOB unless 0 <= i < length (no wrap-around), and for ALL input lists - sortedness NOT assumed, duplicates and any values "
+          "allowed, either side empty - no kernel ever yields OOB or runs out of fuel. Tie W2 on every run: the working-tree .pyx is rebuilt "
+          "with the boundscheck(False) decorators flipped to True (nothing else changed) and run on all C08 inputs plus unsorted and "
+          "duplicate-carrying inputs; inside Coq 'model = OOB <-> rebuild raised IndexError' and 'model = Ok r <-> it returned r' "
+          "(~63 000 calls quick); thorough tier additionally runs the UNMODIFIED .pyx under clang AddressSanitizer."),
+    note=("Trusted: Coq kernel + vm_compute; Cython's bounds-checked code generation and ASan as observers of real accesses; the model's read/write "
+          "sites transcribe the .pyx by hand (a new access site added to the .pyx is caught only through the rebuild/ASan run). Closed under the global context."),
+    technique="Coq proof of index-safety invariants for all inputs + in-Coq correspondence with a bounds-checked rebuild (and ASan) of the real kernels",
+    design_ref="DESIGN.md 4/C09")
+
+CLAIMS["C10"] = dict(
+    category="proof",
+    text=("Theorems le_roundtrip and C10_roundtrip (Properties/C10.v) over byte-level models of IndxIO.save / IndxIO.load (Indx/Save.v, Load.v; "
+          "word size through the fit_dtype model of C19): for every entries dict with uniform arity 1..255, coordinates and common in [0, 2^63), "
+          "row ids in [0, 2^32) (increasing or not), any number of entries incl. none and empty row-id arrays, load (save es common) returns exactly "
+          "(es, common, uint32). Tie W2 on every run: generated dicts (arity 1..4, 0..6 entries, coordinate x common magnitude classes "
+          "<=255/<=65535/<2^32/<2^63 independently, row-id arrays of length 0..6 with boundary values) and real indexes built by from_array are "
+          "saved and loaded by the REAL IndxIO on real files; the bytes written and the loaded parts are compared inside Coq with the model and "
+          "the input; for reachable indexes also iindex(...) == original and validate()."),
+    note=("Trusted: Coq kernel + vm_compute; struct.pack/unpack, ndarray.tofile, mmap and NumPy dtype views are modelled (little-endian words), not "
+          "verified; totals below 2^60 row ids. Closed under the global context."),
+    technique="Coq proof of the byte-level round trip + in-Coq correspondence of real files and loads",
+    design_ref="DESIGN.md 4/C10")
+
 NOT_YET = "check not built yet in this revision (planned: see DESIGN.md section 4)"
 
 
